@@ -508,6 +508,11 @@ def check_property(pid, tier, seed):
                 p = write_replay(pid, 'proof', {'property': pid, 'kind': 'proof-obligation-broken',
                                                 'what': obligations_broken, 'theorems': names})
                 res.violations.append(('proof obligation broken: ' + obligations_broken[0][:200], p, False))
+        nx, xbad = extraction_cross_check(pid, prop, ctx.xpairs[:24]) if model_ok else (0, [])
+        cov['extraction_cross_check'] = {'cases_re_evaluated_by_vm_compute': nx, 'disagreements': len(xbad)}
+        if xbad:
+            p = write_replay(pid, 'xcheck', {'property': pid, 'kind': 'extraction-disagrees-with-vm_compute', 'cases': xbad[:5]})
+            res.violations.append(('extracted model and vm_compute disagree (extraction / driver untrustworthy)', p, False))
         cov['disagreements'] = len(ctx.disagreements)
         cov['oracle_failures'] = len(oracle_failures)
     cov['evaluations'] = evaluations
@@ -577,6 +582,7 @@ class RunCtx:
         self.stats = {}
         self.disagreements = []
         self.oracle_failures = []
+        self.xpairs = []
 
     def corpus_cases(self):
         d = os.path.join(ROOT, 'corpus', self.pid)
@@ -657,10 +663,49 @@ class RunCtx:
                 continue
             if model is not None:
                 mo = model[i]
+                if len(c) + len(mo) < 1500 and len(self.xpairs) < 40 and (i % 97 == 0 or len(self.xpairs) < 6) and not mo.startswith('(CRASH') and not mo.startswith('(DRIVER'):
+                    self.xpairs.append((c, mo))
                 a = prop.project(io) if hasattr(prop, 'project') else io
                 b = prop.project(mo) if hasattr(prop, 'project') else mo
                 if a != b:
                     self.disagreements.append((c, mo[:2000], io[:2000], name))
+
+
+def gallina_sexp(x):
+    """Python s-expression -> Gallina term of type Base.Sexp.sexp"""
+    if isinstance(x, bool):
+        return gallina_sexp(b'true' if x else b'false')
+    if isinstance(x, int):
+        return '(I (%d)%%Z)' % x
+    if isinstance(x, (bytes, bytearray)):
+        return '(A [' + '; '.join(str(b) for b in x) + ']%N)'
+    return '(L [' + '; '.join(gallina_sexp(y) for y in x) + '])'
+
+
+def extraction_cross_check(pid, prop, pairs):
+    """Take extraction (and the OCaml driver) out of the loop on a sample: the kernel's vm_compute must give the same
+    result as the extracted binary did.  pairs = [(case_line, model_output_line)].  Returns (n_checked, [disagreeing cases])."""
+    ext = [t for t in getattr(prop, 'COQ_TARGETS', []) if '/Extract/' in t]
+    if not ext or not pairs:
+        return 0, []
+    module = 'Extract.' + os.path.basename(ext[0])[:-3]
+    d = os.path.join(CACHE, 'xcheck')
+    os.makedirs(d, exist_ok=True)
+    vf = os.path.join(d, 'XCheck_%s.v' % pid)
+    with open(vf, 'w') as f:
+        f.write('From FluentV Require Import Base.Sexp %s.\nFrom Coq Require Import List.\nImport ListNotations.\n' % module)
+        f.write('Definition pairs : list (sexp * sexp) := [\n')
+        f.write(';\n'.join('  (%s,\n   %s)' % (gallina_sexp(sexp.loads(c)), gallina_sexp(sexp.loads(o))) for c, o in pairs))
+        f.write('\n].\n')
+        f.write('Definition verdicts := map (fun p => sexp_eqb (run_case (fst p)) (snd p)) pairs.\n')
+        f.write('Goal True. let v := eval vm_compute in verdicts in idtac "@@XCHECK" v. exact Logic.I. Qed.\n')
+    rc, out, _ = run(['coqc', '-noglob', '-Q', os.path.join(COQ, 'theories'), 'FluentV', vf], cwd=d, timeout=600)
+    m = re.search(r'@@XCHECK\s*\[(.*?)\]', out, re.S)
+    if rc != 0 or not m:
+        return 0, ['coqc failed: ' + out[-300:]]
+    verdicts = [v.strip() for v in m.group(1).replace('\n', ' ').split(';') if v.strip()]
+    bad = [pairs[i][0] for i, v in enumerate(verdicts) if v != 'true']
+    return len(verdicts), bad
 
 
 def replay(pid, path):
